@@ -7,11 +7,13 @@ import (
 	"os"
 
 	"verifharness/corr"
+	"verifharness/suites/reader"
 	"verifharness/suites/wire"
 )
 
 var suites = map[string]func(*corr.Out){
-	"wire": wire.Run,
+	"wire":   wire.Run,
+	"reader": reader.Run,
 }
 
 func main() {
